@@ -28,6 +28,7 @@
 #include "psocketaddress.h"
 #include "plibsys-private.h"
 
+#include <stddef.h>
 #include <stdlib.h>
 #include <string.h>
 
@@ -96,7 +97,8 @@ p_socket_address_new_from_native (pconstpointer	native,
 	PSocketAddress	*ret;
 	puint16		family;
 
-	if (P_UNLIKELY (native == NULL || len == 0))
+	if (P_UNLIKELY (native == NULL ||
+			len < offsetof (struct sockaddr, sa_family) + sizeof (((const struct sockaddr *) native)->sa_family)))
 		return NULL;
 
 	if (P_UNLIKELY ((ret = p_malloc0 (sizeof (PSocketAddress))) == NULL))
